@@ -156,7 +156,16 @@ func VH_C08_time() {
 }
 
 func VH_C08_net() {
-	switch zzverif.Choice(3) {
+	switch zzverif.Choice(5) {
+	case 3: // IPv6 prefix
+		l := []int{0, 7, 64, 120, 128}[zzverif.Choice(5)]
+		pfx := net.IPNet{IP: net.IP(zzverif.Bytes(16)), Mask: net.CIDRMask(l, 128)}
+		vSame("IPPrefix6", vJ.AppendIPPrefix(nil, pfx), vC.AppendIPPrefix(nil, pfx))
+	case 4: // IPv4-mapped address held in 16 bytes with a 128-bit mask (what net.ParseCIDR("::ffff:a.b.c.d/n") yields)
+		a := zzverif.Bytes(4)
+		l := []int{96, 104, 120, 128}[zzverif.Choice(4)]
+		pfx := net.IPNet{IP: net.IP{0, 0, 0, 0, 0, 0, 0, 0, 0, 0, 0xff, 0xff, a[0], a[1], a[2], a[3]}, Mask: net.CIDRMask(l, 128)}
+		vSame("IPPrefix4in6", vJ.AppendIPPrefix(nil, pfx), vC.AppendIPPrefix(nil, pfx))
 	case 0:
 		ip := net.IP(zzverif.Bytes(4 + 12*zzverif.Choice(2)))
 		vSame("IPAddr", vJ.AppendIPAddr(nil, ip), vC.AppendIPAddr(nil, ip))
